@@ -40,7 +40,7 @@ def plan(tier, seed):
 def floors(tier):
     return {"distinct_nontrivial": 300, "variants_compared": 5000, "cls:variant_syntactically_different": 3000,
             "cls:decl_order_permuted": 1000, "cls:sel_order_permuted": 500, "cls:split_top_and": 100,
-            "cls:nvars=3": 300, "cls:nvars=4": 100, "cls:for_all_query": 200, "cls:flatten_query": 100, "cls:flatten_of_plain_numbers": 60}
+            "cls:nvars=3": 300, "cls:nvars=4": 100, "cls:for_all_query": 200, "cls:flatten_query": 100, "cls:flatten_of_plain_numbers": 60, "cls:concatenate_query": 100}
 
 
 def cases(spec, ctx):
@@ -68,6 +68,19 @@ def cases(spec, ctx):
                 variants.append({"cond_order": rng.choice([[0, 1, 2], [2, 1, 0], [1, 2, 0], [2, 0, 1], [0, 2, 1]]), "perm": pr,
                                  "swap": rng.random() < 0.6})
             yield {"flatten": base, "variants": variants}
+            continue
+        if rng.random() < 0.06:
+            # membership in the concatenated collection of a parent that an earlier conjunct binds; parent domain permuted and
+            # the two conjuncts on the member swapped
+            from . import c16
+            w = c16.gen_world(rng)
+            n = len(w["parents"])
+            variants = []
+            for _ in range(3):
+                pr = list(range(n))
+                rng.shuffle(pr)
+                variants.append({"perm": pr, "swap": rng.random() < 0.5})
+            yield {"concat": w, "thr": rng.randint(1, 4), "variants": variants}
             continue
         if rng.random() < 0.2:
             fc = c10.gen_case(rng)
@@ -183,7 +196,46 @@ def check_flatten_case(case, ctx):
     ctx.sample({"flatten": {k: v for k, v in base.items()}, "variant0": case["variants"][0], "rows": len(rows0)})
 
 
+def check_concat_case(case, ctx):
+    from entity_query_language import symbolic_mode, an, entity, let, in_
+    from entity_query_language.entity import concatenate
+    from . import c16
+    ctx.cls("cls:concatenate_query")
+
+    def rows(perm, swap):
+        es, ps = c16.build_world({"parents": [case["concat"]["parents"][j] for j in perm]})
+        with symbolic_mode():
+            p = let(c16.Par, ps)
+            d = let(c16.E, es)
+            conds = [d.n != case["thr"], in_(d, concatenate(p.items))]
+            if swap:
+                conds.reverse()
+            q = an(entity(d, p.k > case["thr"] - 2, *conds))
+        return {o.n for o in q.evaluate()}
+    n = len(case["concat"]["parents"])
+    try:
+        base = rows(list(range(n)), False)
+        for vi, v in enumerate(case["variants"]):
+            ctx.count("variants_compared")
+            if v["perm"] != list(range(n)) or v["swap"]:
+                ctx.cls("cls:variant_syntactically_different")
+            alt = rows(v["perm"], v["swap"])
+            if alt != base:
+                ctx.fail("CONCAT_SET:" + ("missing" if base - alt else "") + ("+extra" if alt - base else ""),
+                         {"variant": vi, "parents_permutation": v["perm"], "conjuncts_swapped": v["swap"],
+                          "only_base": sorted(base - alt), "only_variant": sorted(alt - base)}, variant=vi)
+                break
+    except Exception as e:
+        ctx.fail("EXC", f"concat: {type(e).__name__}: {e}")
+        return
+    if base:
+        ctx.nontrivial()
+    ctx.sample({"concatenate": case["concat"], "rows": len(base)})
+
+
 def check_case(case, ctx):
+    if "concat" in case:
+        return check_concat_case(case, ctx)
     if "flatten" in case:
         return check_flatten_case(case, ctx)
     if "forall" in case:
@@ -232,7 +284,7 @@ def check_case(case, ctx):
 def classify(f, ctx):
     """A variant that disagrees with the base: decide with the oracle which side is wrong, then K05 attribution on it."""
     case = f["case"]
-    if "flatten" in case:
+    if "flatten" in case or "concat" in case:
         return None
     if "forall" in case:
         if f["kind"] not in ("FORALL_SET:missing", "FORALL_SET:+extra") or "variant" not in f:
